@@ -488,6 +488,12 @@ func (u *Unit) slenOf(st *State, s Term) Term {
 func (u *Unit) checkBounds(st *State, e ast.Expr, i, n Term, _ bool) {
 	i = u.asInt(i)
 	g := And(Le(IntLit(0), i), Lt(i, n))
+	if u.fc != nil && u.fc.NoChecks["bounds@"+exprText(e)] {
+		// site-level waiver (listed as an assumption): the bound is assumed, not proved
+		u.assumptions["bounds@"+exprText(e)+" in "+u.name+" assumed (bounded check stands in)"] = true
+		st.assume(g)
+		return
+	}
 	if u.checks["bounds"] {
 		u.oblige(st, "bounds@"+exprText(e), "bounds", nil, g, e.Pos(), "index in range")
 	}
@@ -862,10 +868,16 @@ func (u *Unit) binop(st *State, op token.Token, l, r Value, t types.Type, pos to
 	case token.SHL:
 		if n, ok := b.intVal(); ok && n.IsInt64() && n.Int64() < 64 {
 			x := Mul(a, pow2(int(n.Int64())))
-			if machine {
+			if machine && isUnsigned(t) {
 				return scalar(t, u.wrapTo(x, t, true))
 			}
-			return scalar(t, x)
+			// signed left shift by a constant: like * (no overflow assumed or checked)
+			return scalar(t, noWrap(x, "shl"))
+		}
+		if av, ok := a.intVal(); ok && av.Cmp(big.NewInt(1)) == 0 {
+			// 1 << k with a symbolic k: the power-of-two function (axioms in the prelude)
+			f := u.d.Fun("pow2", []Sort{SInt}, SInt)
+			return scalar(t, noWrap(App(f, SInt, b), "shl"))
 		}
 	case token.SHR:
 		if n, ok := b.intVal(); ok && n.IsInt64() && n.Int64() < 64 {
